@@ -51,11 +51,32 @@ inductive SlotV (ρ : Type)
   | ref1 (t : ρ)
   | refN (ts : List ρ)
   | kids                               -- a containment feature: its children are the node's kids with that `via`
-deriving Repr
+deriving Repr, DecidableEq
 
 inductive SNode (ρ : Type)
   | mk (via : Str) (cls : Nat) (uuid : Str) (slots : List (Str × SlotV ρ)) (kids : List (SNode ρ))
 deriving Repr
+
+mutual
+def SNode.decEq {ρ : Type} [DecidableEq ρ] : (a b : SNode ρ) → Decidable (a = b)
+  | .mk v1 c1 u1 s1 k1, .mk v2 c2 u2 s2 k2 =>
+    if h1 : v1 = v2 ∧ c1 = c2 ∧ u1 = u2 ∧ s1 = s2 then
+      match SNode.decEqL k1 k2 with
+      | isTrue hk => isTrue (by obtain ⟨a, b, c, d⟩ := h1; subst a b c d hk; rfl)
+      | isFalse hk => isFalse (by intro h; cases h; exact hk rfl)
+    else isFalse (by intro h; cases h; exact h1 ⟨rfl, rfl, rfl, rfl⟩)
+def SNode.decEqL {ρ : Type} [DecidableEq ρ] : (a b : List (SNode ρ)) → Decidable (a = b)
+  | [], [] => isTrue rfl
+  | [], _ :: _ => isFalse (by simp)
+  | _ :: _, [] => isFalse (by simp)
+  | a :: as, b :: bs =>
+    match SNode.decEq a b, SNode.decEqL as bs with
+    | isTrue h1, isTrue h2 => isTrue (by rw [h1, h2])
+    | isFalse h1, _ => isFalse (by intro h; cases h; exact h1 rfl)
+    | _, isFalse h2 => isFalse (by intro h; cases h; exact h2 rfl)
+end
+
+instance {ρ : Type} [DecidableEq ρ] : DecidableEq (SNode ρ) := SNode.decEq
 
 def SNode.via {ρ} : SNode ρ → Str | .mk v _ _ _ _ => v
 def SNode.cls {ρ} : SNode ρ → Nat | .mk _ c _ _ _ => c
